@@ -13,7 +13,8 @@ def _apply_threshold(bt):
     two = bt in TWO_SIDED
 
     def setup(G):
-        x = G.array("x", ("n",), kinds=(FIN, NAN))
+        # values may be infinite (a non-missing value like any other: +inf is above every threshold)
+        x = G.array("x", ("n",), kinds=(FIN, NAN, PINF, NINF))
         inp = Bag(x=x, x0=x.copy(), t=G.num("t", kinds=(FIN,)))
         if two:
             inp.t2 = G.num("t2", kinds=(FIN,))
@@ -130,7 +131,7 @@ def _get_intervals(bt, infinite_x=False):
 for _bt in BIN_TYPES:
     for infinite_x in (False, True):
         s, c, p = _get_intervals(_bt, infinite_x)
-        register(Obligation("verif.util.get_intervals#POST:%s%s" % (_bt, "[x=+-inf]" if infinite_x else ""), ("C07", "C12"),
+        register(Obligation("verif.util.get_intervals#POST:%s%s" % (_bt, "[x=+-inf]" if infinite_x else ""), ("C07", "C12", "C06"),
                             s, c, p, modules=MOD, functions=["verif.util.get_intervals"]))
 
 
@@ -149,7 +150,7 @@ def _get_intervals_none():
 
 
 s, c, p = _get_intervals_none()
-register(Obligation("verif.util.get_intervals#POST:None", ("C07",), s, c, p, modules=MOD))
+register(Obligation("verif.util.get_intervals#POST:None", ("C07", "C06"), s, c, p, modules=MOD))
 
 
 # ------------------------------------------------------------------ lemmas (no code: validities over the specs)
